@@ -9,7 +9,7 @@ import Ufw.Lemmas.CrcAlgebra
 namespace Ufw.Lemmas.Regp
 open Ufw
 open Ufw.Spec.Regp
-open Ufw.Lemmas.CrcAlgebra (xorL Burst16)
+open Ufw.Lemmas.CrcAlgebra (xorL Burst16 Detectable)
 
 /-- header length announced by the first header word -/
 def hlenOf (w0 : Nat) : Nat := 12 + (if bit w0 9 then 2 else 0) + (if bit w0 10 then 2 else 0)
@@ -140,6 +140,15 @@ theorem burst_append_zeros (e : List Octet) (h : Burst16 e) (n : Nat) : Burst16 
       simp [List.replicate_append_replicate]
     rw [this]; exact .three k (j + n) a b c hw h
 
+theorem detectable_of_burst (e : List Octet) (h : Burst16 e) : Detectable e :=
+  fun n => Ufw.Lemmas.CrcAlgebra.crc_burst_ne_zero _ (burst_append_zeros e h n)
+
+theorem crc16_ne_of_detectable (m e : List Octet) (hlen : m.length = e.length) (h : Detectable e) :
+    crc16 (xorL m e) ≠ crc16 m := by
+  intro h0
+  simp only [crc16] at h0
+  exact Ufw.Lemmas.CrcAlgebra.crc_detects m e hlen h 0#16 (BitVec.eq_of_toNat_eq h0)
+
 theorem xorL_zeros (l : List Octet) : xorL l (List.replicate l.length 0#8) = l := by
   induction l with
   | nil => rfl
@@ -167,10 +176,10 @@ theorem hlenOf_ge (w0 : Nat) : 12 ≤ hlenOf w0 ∧ (bit w0 9 = true → 14 ≤ 
   simp only [hlenOf]
   cases bit w0 9 <;> cases bit w0 10 <;> simp
 
-/-- a burst of up to sixteen bits inside the payload of an accepted frame that declares a payload
-    checksum: the damaged frame is classified as bad payload checksum -/
+/-- a detectable error pattern (burst of up to sixteen bits, two-bit error) inside the payload of an
+    accepted frame that declares a payload checksum: the damaged frame is classified as bad payload checksum -/
 theorem payload_burst_classified (raw : List Octet) (f : Frame) (hacc : classify raw = .accept f)
-    (hpl : f.plcrc = true) (e : List Octet) (hlen : e.length = f.payload.length) (hb : Burst16 e) :
+    (hpl : f.plcrc = true) (e : List Octet) (hlen : e.length = f.payload.length) (hb : Detectable e) :
     ∃ f', classify (raw.take (hlenOf (unbe (raw.take 2))) ++ xorL f.payload e) = .badPayloadChecksum f' := by
   obtain ⟨h12, hv, t, ht, h11, hcv, hl, hcrc, hf, hsz, hpc⟩ := accept_inv raw f hacc
   generalize hw : unbe (raw.take 2) = w0 at *
@@ -184,7 +193,7 @@ theorem payload_burst_classified (raw : List Octet) (f : Frame) (hacc : classify
   rw [hpay]
   have hlenQ : e.length = (raw.drop (hlenOf w0)).length := by rw [hlen, hpay]
   have hne : raw.drop (hlenOf w0) ≠ [] := by
-    intro h0; rw [h0] at hlenQ; exact burst_ne_nil e hb (List.length_eq_zero_iff.mp hlenQ)
+    intro h0; rw [h0] at hlenQ; exact Ufw.Lemmas.CrcAlgebra.detectable_ne_nil e hb (List.length_eq_zero_iff.mp hlenQ)
   have hlen' : (raw.take (hlenOf w0) ++ xorL (raw.drop (hlenOf w0)) e).length = raw.length := by
     rw [List.length_append, Ufw.Lemmas.CrcAlgebra.xorL_length _ _ hlenQ.symm, ← List.length_append,
       List.take_append_drop]
@@ -229,7 +238,7 @@ theorem payload_burst_classified (raw : List Octet) (f : Frame) (hacc : classify
     have := hpc hpl (by rw [hpay]; exact hne)
     rw [hpay] at this; exact this
   have hcrcne : unbe (plcWordOf raw w0) ≠ crc16 (xorL (raw.drop (hlenOf w0)) e) := by
-    rw [hstored]; exact (crc16_ne_of_burst _ _ hlenQ.symm hb).symm
+    rw [hstored]; exact (crc16_ne_of_detectable _ _ hlenQ.symm hb).symm
   refine ⟨{ f with payload := xorL (raw.drop (hlenOf w0)) e }, ?_⟩
   rw [hcl]
   simp only
@@ -249,11 +258,11 @@ theorem payload_burst_classified (raw : List Octet) (f : Frame) (hacc : classify
   simp only [hsz', Bool.not_true, Bool.false_eq_true, ↓reduceIte, hb10, true_and]
   rw [if_pos ⟨by simpa [List.isEmpty_iff] using hxne, hcrcne⟩]
 
-/-- a burst of up to sixteen bits inside the header words behind the first one (sequence number,
+/-- a detectable error pattern inside the header words behind the first one (sequence number,
     address, block size) of an accepted frame that carries a header checksum: the damaged frame is
     classified as bad header checksum -/
 theorem header_burst_classified (raw : List Octet) (f : Frame) (hacc : classify raw = .accept f)
-    (hhd : f.hdcrc = true) (E : List Octet) (hE : E.length = 12) (hE2 : E.take 2 = [0#8, 0#8]) (hb : Burst16 E) :
+    (hhd : f.hdcrc = true) (E : List Octet) (hE : E.length = 12) (hE2 : E.take 2 = [0#8, 0#8]) (hb : Detectable E) :
     classify (xorL (raw.take 12) E ++ raw.drop 12) = .badHeaderChecksum := by
   obtain ⟨h12, hv, t, ht, h11, hcv, hl, hcrc, hf, hsz, hpc⟩ := accept_inv raw f hacc
   generalize hw : unbe (raw.take 2) = w0 at *
@@ -296,7 +305,7 @@ theorem header_burst_classified (raw : List Octet) (f : Frame) (hacc : classify 
         xorL (raw.take 12 ++ plcWordOf raw w0) (E ++ List.replicate (plcWordOf raw w0).length 0#8) := by
       rw [xorL_append _ _ _ _ (by rw [hA, hE]), ← hz]
     rw [this]
-    exact (crc16_ne_of_burst _ _ (by simp [hA, hE]) (burst_append_zeros E hb _)).symm
+    exact (crc16_ne_of_detectable _ _ (by simp [hA, hE]) (Ufw.Lemmas.CrcAlgebra.detectable_append_zeros E hb _)).symm
   rw [if_pos ⟨hb9, hne⟩]
 
 end Ufw.Lemmas.Regp
